@@ -39,6 +39,7 @@ struct Model {
     advances: u8,
     status: Vec<Status>,
     mini_count: u32,
+    rotations: u8,
 }
 
 #[derive(Clone, Debug, Serialize, Deserialize)]
@@ -50,6 +51,8 @@ enum Act {
     /// a third party calls gateway.validate_message for itself (it is not the destination)
     ThirdPartyValidate { key: usize, src: u8, payload: u8 },
     Advance(u32),
+    /// the signer set is rotated (statuses must not care)
+    Rotate,
 }
 
 struct C16;
@@ -62,7 +65,10 @@ const APPROVABLE: usize = 2; // the third key is never approved
 
 /// the two source addresses differ only in letter case
 fn src_str(i: u8) -> &'static str { if i == 0 { "0xSourceAddr" } else { "0xsourceaddr" } }
-fn payload_of(i: u8) -> Vec<u8> { if i == 0 { b"payload one".to_vec() } else { b"payload 2".to_vec() } }
+/// payload 2 is the empty payload; "payload" 3 exists only as an approved hash: the all-zero hash, which
+/// is the hash of no payload at all
+fn payload_of(i: u8) -> Vec<u8> { match i { 0 => b"payload one".to_vec(), 1 => b"payload 2".to_vec(), _ => vec![] } }
+fn approved_hash(i: u8) -> [u8; 32] { if i == 3 { [0u8; 32] } else { keccak(&payload_of(i)) } }
 
 impl Scenario for C16 {
     type Ctx = Ctx;
@@ -79,7 +85,7 @@ impl Scenario for C16 {
         let env = &w.env;
         let owner = env.register(Principal, ());
         let operator = env.register(Principal, ());
-        let keys = Keys::new(1);
+        let keys = Keys::new(2);
         let set = SetSpec { signers: vec![(0, 1)], threshold: 1, nonce: 1 };
         let gw = register_gateway(&w, None, &owner, &operator, &DOMAIN, 0, 0, &[set.raw(&keys)]);
         let gas = env.register(axelar_gas_service::AxelarGasService, (owner.clone(), operator.clone()));
@@ -97,7 +103,7 @@ impl Scenario for C16 {
                 &soroban_sdk::xdr::ScAddress::Account(soroban_sdk::xdr::AccountId(soroban_sdk::xdr::PublicKey::PublicKeyTypeEd25519(soroban_sdk::xdr::Uint256(raw)))),
             )
         };
-        (Ctx { w, gw, keys, set, apps: vec![example, mini, twin], third: operator.clone() }, Model { advances: 0, status: vec![Status::NotApproved; 7], mini_count: 0 })
+        (Ctx { w, gw, keys, set, apps: vec![example, mini, twin], third: operator.clone() }, Model { advances: 0, status: vec![Status::NotApproved; 7], mini_count: 0, rotations: 0 })
     }
 
     fn actions(&self, _ctx: &Ctx, m: &Model) -> Vec<Act> {
@@ -118,6 +124,11 @@ impl Scenario for C16 {
             }
             // approved for the account-type twin of the example app's address
             v.push(Act::Approve { key, c: Content { app: 2, src: 0, payload: 0 } });
+            // approved with the empty payload's hash / with the all-zero hash
+            for app in 0..2u8 {
+                v.push(Act::Approve { key, c: Content { app, src: 0, payload: 2 } });
+                v.push(Act::Approve { key, c: Content { app, src: 0, payload: 3 } });
+            }
         }
         let c0 = Content { app: 0, src: 0, payload: 0 };
         let c1 = Content { app: 1, src: 0, payload: 0 };
@@ -128,7 +139,14 @@ impl Scenario for C16 {
         for key in 0..2usize {
             v.push(Act::ThirdPartyValidate { key, src: 0, payload: 0 });
         }
+        if m.rotations < 1 {
+            v.push(Act::Rotate);
+        }
         for app in 0..2u8 {
+            // deliveries with the empty payload
+            for key in 0..2usize {
+                v.push(Act::Execute { app, key, src: 0, payload: 2 });
+            }
             for key in 0..7usize {
                 for src in 0..2u8 {
                     for payload in 0..2u8 {
@@ -152,14 +170,27 @@ impl Scenario for C16 {
                 w.set_time(w.now() + 5 * *n as u64);
                 m.advances += 1;
             }
+            Act::Rotate => {
+                out.kind = "rotate";
+                let next = SetSpec { signers: vec![(1, 1)], threshold: 1, nonce: 2 };
+                let raw = next.raw(&ctx.keys);
+                let proof = honest_proof(&ctx.keys, &ctx.set, &DOMAIN, &raw.rotation_data_hash());
+                let call = w.call(&ctx.gw, "rotate_signers", &[to_val(env, &raw.scval()), to_val(env, &proof), w.v(false)], Auth::Nobody);
+                out.accepted = call.ok;
+                out.expect(call.ok, "rotate.rejected", || call.err.clone());
+                if call.ok {
+                    m.rotations += 1;
+                }
+            }
             Act::Approve { key, c } => {
                 out.kind = "approve";
                 let (chain, id) = KEYS[*key];
                 let msg = msg_scval(
-                    &Msg { chain: chain.into(), id: id.into(), src: src_str(c.src).into(), dest: 0, payload_hash: keccak(&payload_of(c.payload)) },
+                    &Msg { chain: chain.into(), id: id.into(), src: src_str(c.src).into(), dest: 0, payload_hash: approved_hash(c.payload) },
                     &w.sc_addr(&ctx.apps[c.app as usize]),
                 );
-                let call = approve(w, &ctx.gw, &ctx.keys, &ctx.set, &DOMAIN, &[msg]);
+                let set = if m.rotations == 0 { ctx.set.clone() } else { SetSpec { signers: vec![(1, 1)], threshold: 1, nonce: 2 } };
+                let call = approve(w, &ctx.gw, &ctx.keys, &set, &DOMAIN, &[msg]);
                 out.accepted = call.ok;
                 out.expect(call.ok, "approve.rejected", || call.err.clone());
                 if call.ok && m.status[*key] == Status::NotApproved {
@@ -171,11 +202,12 @@ impl Scenario for C16 {
                 let mk = |(key, c): &(usize, Content)| {
                     let (chain, id) = KEYS[*key];
                     msg_scval(
-                        &Msg { chain: chain.into(), id: id.into(), src: src_str(c.src).into(), dest: 0, payload_hash: keccak(&payload_of(c.payload)) },
+                        &Msg { chain: chain.into(), id: id.into(), src: src_str(c.src).into(), dest: 0, payload_hash: approved_hash(c.payload) },
                         &w.sc_addr(&ctx.apps[c.app as usize]),
                     )
                 };
-                let call = approve(w, &ctx.gw, &ctx.keys, &ctx.set, &DOMAIN, &[mk(first), mk(second)]);
+                let set = if m.rotations == 0 { ctx.set.clone() } else { SetSpec { signers: vec![(1, 1)], threshold: 1, nonce: 2 } };
+                let call = approve(w, &ctx.gw, &ctx.keys, &set, &DOMAIN, &[mk(first), mk(second)]);
                 out.accepted = call.ok;
                 out.expect(call.ok, "approve.rejected", || call.err.clone());
                 if call.ok {
@@ -261,7 +293,7 @@ fn main() {
         let mut o = Opts::new(tier, if tier == "thorough" { 12 } else { 8 });
         o.min_depth = 3;
         o.xcheck = tier == "thorough";
-        o.rule = "all sequences over gateway approvals (2 message ids x destination {example app, minimal app} x 2 source addresses x 2 payloads, plus the account-type address made of the example app's 32 bytes; two-message batches incl. one led by a message from another source chain) and deliveries app.execute(chain, id, source address, payload) for both apps x 7 ids (one on another chain; four approved nowhere: an empty id and three whose chain and id joined by '_', '-' or ':' coincide with an approvable key's) x 2 source addresses x 2 payloads; so never-approved, approved-for-the-other-app, other payload / source address / id / chain, delivered twice and conforming deliveries all occur; a third party asking the gateway directly (refused, must change nothing); explored to fixpoint of the finite status graph".into();
+        o.rule = "all sequences over gateway approvals (2 message ids x destination {example app, minimal app} x 2 source addresses x 2 payloads, plus approvals carrying the empty payload's hash and the all-zero hash, plus the account-type address made of the example app's 32 bytes; two-message batches incl. one led by a message from another source chain) and deliveries app.execute(chain, id, source address, payload) for both apps x 7 ids (one on another chain; four approved nowhere: an empty id and three whose chain and id joined by '_', '-' or ':' coincide with an approvable key's) x 2 source addresses x 2 payloads; so never-approved, approved-for-the-other-app, other payload / source address / id / chain, delivered twice and conforming deliveries all occur; deliveries with the empty payload; one signer rotation; a third party asking the gateway directly (refused, must change nothing); explored to fixpoint of the finite status graph".into();
         (C16, o)
     });
 }
